@@ -17,9 +17,9 @@ GETTER_CAP = 4
 # ------------------------------------------------------------------ rendering of model values
 
 JS_LIT = {"i0": "0", "i1": "1", "i2": "2", "i10": "10", "f1.5": "1.5", "-0": "-0", "NaN": "NaN",
-          "sa": '"a"', "sg": '"g"', "obj": "OBJ", "u": "undefined"}
+          "sa": '"a"', "sg": '"g"', "obj": "OBJ", "u": "undefined", "P": '"P"'}
 NATIVE = {"i0": "n:0", "i1": "n:1", "i2": "n:2", "i10": "n:10", "f1.5": "n:b:3FF8000000000000", "-0": "n:-0",
-          "NaN": "n:NaN", "sa": "s:a", "sg": "s:g", "obj": "s:@obj", "u": "u", "self": "s:@self"}
+          "NaN": "n:NaN", "sa": "s:a", "sg": "s:g", "obj": "s:@obj", "u": "u", "self": "s:@self", "P": "s:P"}
 PDESC = {
     "gk": "{get: Gk, enumerable: true, configurable: true}",
     "gks": "{get: Gk, set: Sn, enumerable: true, configurable: true}",
@@ -332,10 +332,20 @@ def step_block(n, st, pre_d, prefix):
     return "\n".join(src), exp
 
 
+PROTO_IDX = []          # indices at which Object.prototype has the data property "P" (ProtoIdx of the configuration being replayed)
+
+
+def prelude():
+    """PRELUDE plus the inherited index properties of the configuration: arrays, array-likes, proxies and the arrays the
+    methods create all inherit them from Object.prototype"""
+    return PRELUDE + "".join('\nObject.defineProperty(Object.prototype, "%d", {value: "P", writable: true, enumerable: false, configurable: true});' % i
+                             for i in PROTO_IDX)
+
+
 def render_node(hist, steps):
     """All operations `steps` applied (each to a freshly rebuilt copy) to the state reached by `hist`.
     Returns (program, {(n, world): expected lines}); block 0 is the state itself."""
-    src = [PRELUDE, prefix_code("A", hist), prefix_code("P", hist, True),
+    src = [prelude(), prefix_code("A", hist), prefix_code("P", hist, True),
            'print("W", 0, "A"); dump(A); print("S", KIND(A)); print("W", 0, "P"); dump(P);']
     d0 = dump_lines(hist[-1]["d"], True)
     exp = {(0, "A"): d0, (0, "P"): d0}
@@ -349,7 +359,7 @@ def render_node(hist, steps):
 
 def render_linear(hist):
     """One history applied step by step; named-property stores additionally in world C (fresh copies)."""
-    src = [PRELUDE, prefix_code("A", hist[:1]), prefix_code("P", hist[:1], True),
+    src = [prelude(), prefix_code("A", hist[:1]), prefix_code("P", hist[:1], True),
            'print("W", 0, "A"); dump(A); print("S", KIND(A)); print("W", 0, "P"); dump(P);']
     d0 = dump_lines(hist[0]["d"], True)
     exp = {(0, "A"): d0, (0, "P"): d0}
@@ -459,7 +469,8 @@ def oracle(histories):
         for ops in histories:
             l = ops[0]
             f.write(json.dumps({"lit": {"c": l.get("c", "lit"), "els": l["els"], "n": l.get("n", 0)}, "ops": ops[1:]}) + "\n")
-    r, out = emit("MCArrayOracle.cfg", 4, 900, env_extra={"HISTS": path},
+    ocfg = {(): "MCArrayOracle.cfg", (1,): "MCArrayOracle_p1.cfg", (0, 2): "MCArrayOracle_p02.cfg"}[tuple(PROTO_IDX)]
+    r, out = emit(ocfg, 4, 900, env_extra={"HISTS": path},
                   module=os.path.join(vlib.SPEC, "objects", "MCArrayOracle.tla"))
     os.unlink(path)
     vlib.tlc_must_pass(r, "ArrayStorage/oracle")
@@ -672,7 +683,7 @@ def report(ck, binary, failing):
     for ops, w, d, pre_d in failing:
         c = classify(ops, pre_d, w, d)
         if c is not None:
-            ck.failure(sig(c), {"history": ops, "world": w,
+            ck.failure(sig(c), {"history": ops, "inherited_indices": list(PROTO_IDX), "world": w,
                            "diff": {x: y for x, y in d.items() if not x.endswith("_block")}, "got": d.get("got_block")})
             continue
         cat = (ops[-1]["k"], w, d.get("what"), str(d.get("expected", ""))[:3], str(d.get("got", ""))[:3])
@@ -692,10 +703,13 @@ def report(ck, binary, failing):
         if not f and fatal is None:
             raise vlib.ToolError("failure does not reproduce: %s" % json.dumps(sh))
         worlds = sorted({ww for n, ww, dd in f if n == len(h) - 1}) or [w]
-        detail = {"history": sh, "original_history": ops, "group": list(cat), "group_size": count, "worlds": worlds,
+        detail = {"history": sh, "inherited_indices": list(PROTO_IDX), "original_history": ops, "group": list(cat), "group_size": count, "worlds": worlds,
                   "diffs": [{"step": n, "world": ww, **{x: y for x, y in dd.items() if not x.endswith("_block")}} for n, ww, dd in f][:6],
                   "fatal": fatal, "program": src}
-        ck.failure(sig({"history": sh, "worlds": worlds, "panic": bool(fatal and fatal.get("what") == "panic")}), detail)
+        sg = {"history": sh, "worlds": worlds, "panic": bool(fatal and fatal.get("what") == "panic")}
+        if PROTO_IDX:
+            sg["inherited_indices"] = list(PROTO_IDX)
+        ck.failure(sig(sg), detail)
 
 
 def check_linear(binary, model_hists, stats):
@@ -745,6 +759,8 @@ def run(tier, replay=None):
 
     if replay:
         det = json.load(open(replay)).get("detail", {})
+        global PROTO_IDX
+        PROTO_IDX = det.get("inherited_indices", [])
         ops = det.get("history")
         if not ops:
             raise vlib.ToolError("replay file has no history")
@@ -764,17 +780,20 @@ def run(tier, replay=None):
         cmds.append(g2["cmd"])
 
     # ---- exhaustive part: every (state, operation) edge; TLC checks commutation + storage invariants and emits
-    cfgs = ["MCArray_quick.cfg"] if tier == "quick" else ["MCArray_thorough.cfg", "MCArray_wide.cfg", "MCArray_far.cfg"]
+    cfgs = ["MCArray_quick.cfg", "MCArray_protoq.cfg"] if tier == "quick" else \
+        ["MCArray_thorough.cfg", "MCArray_wide.cfg", "MCArray_far.cfg", "MCArray_protoq.cfg", "MCArray_protot.cfg"]
     all_nodes = []
     edges_total = 0
     seen_states = set()
     for cfg in cfgs:
+        PROTO_IDX = {"MCArray_protoq.cfg": [1], "MCArray_protot.cfg": [0, 2]}.get(cfg, [])
         r, nodes, edges = tlc_nodes(ck, cfg, tier, 3400)
         states += r["distinct"]; transitions += edges
         cmds.append(r["cmd"])
         all_nodes += nodes
         edges_total += edges
         report(ck, binary, check_nodes(ck, binary, nodes, stats))
+    PROTO_IDX = []
     nt = sum(len(n["steps"]) for n in all_nodes if nontrivial_node(n))
     kinds = {}
     for nd in all_nodes:
